@@ -7,6 +7,7 @@ import (
 	"github.com/gotid/god/lib/threading"
 	"github.com/gotid/god/lib/timex"
 	"reflect"
+	"runtime"
 	"sync"
 	"sync/atomic"
 	"time"
@@ -89,6 +90,10 @@ func (pe *PeriodicalExecutor) Sync(fn func()) {
 // Wait 等待执行完成。
 func (pe *PeriodicalExecutor) Wait() {
 	pe.Flush()
+	// 已被 Add 取走、但后台协程尚未 enterExecution 的批次还不在 waitGroup 中，先等它们交接完成
+	for atomic.LoadInt32(&pe.inflight) > 0 {
+		runtime.Gosched()
+	}
 	pe.wgBarrier.Guard(func() {
 		pe.waitGroup.Wait()
 	})
@@ -162,8 +167,8 @@ func (pe *PeriodicalExecutor) backgroundFlush() {
 			select {
 			case tasks := <-pe.commander:
 				commanded = true
-				atomic.AddInt32(&pe.inflight, -1)
 				pe.enterExecution()
+				atomic.AddInt32(&pe.inflight, -1)
 				pe.confirmChan <- lang.Placeholder
 				pe.executeTasks(tasks)
 				last = timex.Now()
